@@ -89,14 +89,14 @@ func (e *Query) writeTo(s *strings.Builder) {
 }
 
 func (e *Query) toIndexKey() any {
-	if e.Term == nil {
+	if e.Term == nil || len(e.FuncDefs) > 0 {
 		return nil
 	}
 	return e.Term.toIndexKey()
 }
 
 func (e *Query) toIndices(xs []any) []any {
-	if e.Term == nil {
+	if e.Term == nil || len(e.FuncDefs) > 0 {
 		return nil
 	}
 	return e.Term.toIndices(xs)
